@@ -15,8 +15,30 @@ EXTRA = ["cat <(true) >/dev/null", "v=$(true; false)", "cat <<< x >/dev/null", "
          "a=(1 2); a[1/0]=3 true", "( x=${UNSETZZ?nope} true )", "f0 > /nonexistent_zz/f", "XT=1 f0 < /nonexistent_zz/f",
          # functions whose DEFINITION carries a redirection that fails at call time (found missing by seed C18-1)
          "fr 2>/dev/null", "XT=1 fr inner 2>/dev/null", "fw a b 2>/dev/null", "for i in 1 2; do XT=$i fr $i; done 2>/dev/null",
-         "fr 2>/dev/null | cat", "v=$(fr 2>&1)", "fok >/dev/null", "XT=1 fok"]
-DEFS = 'fr() { return 3; } < "/nonexistent_zz/$1"\nfw() { :; } > /nonexistent_zz/d/f\nfok() { :; } < /dev/null\n'
+         "fr 2>/dev/null | cat", "v=$(fr 2>&1)", "fok >/dev/null", "XT=1 fok",
+         # sourced files (push_script / pop, positional parameters) leaving by return, failing, not parsing, missing
+         ". $SD/r", "source $SD/n 2>/dev/null", ". $SD/s 2>/dev/null", ". $SD/f 2>/dev/null", ". $SD/d 2>/dev/null",
+         ". /nonexistent_zz/f 2>/dev/null", "XT=1 . $SD/r", ". $SD/r > /nonexistent_zz/f", "for i in 1 2; do . $SD/nest; done >/dev/null",
+         "fs; fs | cat", "v=$(. $SD/r)", ". $SD/r arg1 arg2", "fs a b < /nonexistent_zz/f", "eval '. $SD/r'",
+         # other dispatch paths with a failing redirect or temporary assignment
+         "eval 'f0; return 3' 2>/dev/null", "builtin true < /nonexistent_zz/f", "command true < /nonexistent_zz/f", "f0 <<< x",
+         "{ f0; } < /nonexistent_zz/f", "( f0 ) < /nonexistent_zz/f", "if f0 < /nonexistent_zz/f; then :; fi",
+         "while f0 < /nonexistent_zz/f; do :; done", "read x <<< y", "mapfile -t A < /dev/null", "XT=1 eval 'XT=2 f0'",
+         "case x in x) f0 < /nonexistent_zz/f ;; esac", "for ((i=0;i<2;i++)); do XT=$i f0; done", "[[ -n x ]] < /nonexistent_zz/f",
+         "(( 1 )) < /nonexistent_zz/f", "f0() { return 3; }", "unset -f fq; fq() { :; }; fq"]
+DEFS = ('fr() { return 3; } < "/nonexistent_zz/$1"\nfw() { :; } > /nonexistent_zz/d/f\nfok() { :; } < /dev/null\n'
+        'SD=${TMPDIR:-/tmp}/c18src.$$; mkdir -p $SD; echo "return 3" > $SD/r; echo nosuchcmd_zz > $SD/n; echo "if then" > $SD/s\n'
+        'printf "f0\\nRO=1 true\\n" > $SD/f; printf "true < /nonexistent_zz/f\\nreturn 2\\n" > $SD/d; printf ". $SD/r\\necho no\\n" > $SD/nest\n'
+        'fs() { . $SD/r; }\n')
+
+
+def _sweep_src_dirs():
+    """DEFS creates /tmp/c18src.<pid of the harness process>; remove those whose process is gone"""
+    import glob, os, shutil, tempfile
+    for d in glob.glob(os.path.join(os.environ.get("TMPDIR", tempfile.gettempdir()), "c18src.*")):
+        pid = d.rsplit(".", 1)[1]
+        if pid.isdigit() and not os.path.exists("/proc/" + pid):
+            shutil.rmtree(d, ignore_errors=True)
 
 
 def body_program(rng):
@@ -58,8 +80,9 @@ def run(ctx):
 
     # ---- part A: resources sampled inside one in-process shell after 1, n1, n2 iterations
     reqs = []
-    for funcs, main in progs:
-        txt = flowgen.render((funcs, main), fd3=True)
+    for pi, (funcs, main) in enumerate(progs):
+        # every other program with harmless redirects on its compound commands (same program, other dispatch path)
+        txt = flowgen.render((funcs, main), fd3=True, deco=((ctx.seed << 16) + pi if pi % 2 else None), deco_nl=False)
         lines = txt.rstrip("\n").split("\n")
         prelude = DEFS + "\n".join(l for l in lines[1:-1])          # without `exec 3>&1`
         body = lines[-1]
@@ -69,6 +92,7 @@ def run(ctx):
     for x in EXTRA:
         reqs.append("%d %d %s %s" % (n1, n2, esc(DEFS + "readonly RO=0\nf0() { return 3; }"), esc(x)))
     okh, outs, errs = lib.run_vh_parallel(BIN, reqs, workers=8)
+    _sweep_src_dirs()
     if not okh:
         ctx.broken.append("harness c18 died: " + errs[:500])
     for req, o in zip(reqs, outs):
